@@ -20,8 +20,8 @@ Definition set_ok (k : seqkind) (l : list pv) : bool :=
 (* a Python dict object: hashable, pairwise distinct keys *)
 Definition keys_ok (ks : list pv) : bool := hashable_all ks && fresh_from ks [].
 
-(* position-wise check; `exact` = same length, otherwise the value may stop early
-   (what zip lets through: DESIGN 9 #15) but is never longer *)
+(* position-wise check; `exact` = same length, otherwise the value may stop early but is never longer
+   (fixed tuples are exact since FixedTupleUnmarshaller rejects short inputs) *)
 Fixpoint all2 {A B} (exact : bool) (f : A -> B -> bool) (ts : list A) (l : list B) : bool :=
   match ts, l with
   | [], [] => true
@@ -30,8 +30,8 @@ Fixpoint all2 {A B} (exact : bool) (f : A -> B -> bool) (ts : list A) (l : list 
   | [], _ :: _ => false
   end.
 
-(* a TypedDict instance: a dict whose keys are pairwise distinct declared field names (any order, any
-   subset: totality is not enforced by Python nor by typelib) *)
+(* a TypedDict instance: a dict whose keys are pairwise distinct declared field names, in any order
+   (td_ok), with every required key present (req_ok) *)
 Fixpoint td_ok (chk : nat -> pv -> bool) (kvs : list (pv * pv)) (seen : list nat) : bool :=
   match kvs with
   | [] => true
@@ -39,7 +39,10 @@ Fixpoint td_ok (chk : nat -> pv -> bool) (kvs : list (pv * pv)) (seen : list nat
   | _ => false
   end.
 
-Variable strict : bool.     (* true: fixed tuples have exactly the annotated arity *)
+Definition has_key (f : nat) (kvs : list (pv * pv)) : bool :=
+  existsb (fun kv => match fst kv with PKey g => Nat.eqb f g | _ => false end) kvs.
+Definition req_ok (cd : classdef) (kvs : list (pv * pv)) : bool :=
+  forallb (fun fd => negb (existsb (Nat.eqb (fname fd)) (crequired cd)) || has_key (fname fd) kvs) (cfields cd).
 
 Fixpoint vgen (fuel : nat) (t : ty) (v : pv) {struct fuel} : bool :=
   match fuel with
@@ -62,7 +65,7 @@ Fixpoint vgen (fuel : nat) (t : ty) (v : pv) {struct fuel} : bool :=
         end
     | TTuple ts =>
         match v with
-        | PSeq KTuple l => all2 strict (vgen n) ts l
+        | PSeq KTuple l => all2 true (vgen n) ts l
         | _ => false
         end
     | TUnion ts => existsb (fun t' => vgen n t' v) ts
@@ -74,6 +77,7 @@ Fixpoint vgen (fuel : nat) (t : ty) (v : pv) {struct fuel} : bool :=
             match cflavour cd, v with
             | FTypedDict, PDict KDict kvs =>
                 td_ok (fun f x => match field_ty cd f with Some ft => vgen n ft x | None => false end) kvs []
+                && req_ok cd kvs
             | FNamedTuple, PNamed c' l =>
                 Nat.eqb c c' && all2 true (fun fd x => vgen n (fty fd) x) (cfields cd) l
             | FDataclass, PObj c' fs | FPlain, PObj c' fs =>
@@ -115,9 +119,8 @@ Fixpoint optional_only (fuel : nat) (t : ty) {struct fuel} : bool :=
 
 End Valid.
 
-(* valid: exactly the annotated classes and arities;  stable: same, a fixed tuple may stop early *)
-Definition valid (lv : nat -> pv -> bool) (rt : runtime) (E : env) := vgen lv rt E true.
-Definition stable (lv : nat -> pv -> bool) (rt : runtime) (E : env) := vgen lv rt E false.
+(* valid: exactly the annotated classes and arities, required keys present *)
+Definition valid (lv : nat -> pv -> bool) (rt : runtime) (E : env) := vgen lv rt E.
 
 (* the leaf predicate used for idempotence: v is a fixed point of its leaf routine *)
 Definition fixlv (rt : runtime) (s : nat) (v : pv) : bool :=
@@ -151,14 +154,14 @@ Record IdemLaws (rt : runtime) : Prop := {
 (* every default of every class conforms to its own annotation (guard of the idempotence form) *)
 Definition DefaultsConform (rt : runtime) (E : env) : Prop :=
   forall c cd fd d, E c = Some (NClass cd) -> In fd (cfields cd) -> fdefault fd = Some d ->
-  exists k, stable (fixlv rt) rt E k (fty fd) d = true.
+  exists k, valid (fixlv rt) rt E k (fty fd) d = true.
 
 (* computable form over a finite list of class names *)
 Definition defaults_okb (rt : runtime) (E : env) (k : nat) (cs : list nat) : bool :=
   forallb (fun c => match E c with
                     | Some (NClass cd) =>
                         forallb (fun fd => match fdefault fd with
-                                           | Some d => stable (fixlv rt) rt E k (fty fd) d
+                                           | Some d => valid (fixlv rt) rt E k (fty fd) d
                                            | None => true end) (cfields cd)
                     | _ => true end) cs.
 Definition env_dom (E : env) (cs : list nat) : Prop := forall c, E c <> None -> In c cs.
